@@ -21,6 +21,46 @@ def P(p, f):
 NOINLINE = summ.LOCAL_HELPERS
 
 
+def monomial_by_unrolling(v, f, coefs, minus_one, sizes=(1, 2, 3, 4, 5, 8)):
+    """Fallback when the index map has no closed form (a source index and a sign flag carried through one fused loop with a wrap):
+    the function is interpreted with N fixed to a few small sizes and every exponent a in [0, 2N), its loops unrolled because
+    all their tests are then constants, and each output coefficient compared with +/- in[(i - a) mod N] (- in[i]).
+    -> (True, detail) | (False, witness) | (None, reason)"""
+    from sa.symexec import run_function, flat
+    names = [p["n"] for p in f.params]
+    res, a, src = names[0], names[1], names[2]
+    IN, OUT = P(src, coefs), P(res, coefs)
+    n_checked = 0
+    for nv in sizes:
+        conc = {P(src, "N"): nv, P(res, "N"): nv}
+        for av in range(2 * nv):
+            args = [None, I(av), None] + [None] * (len(names) - 3)
+            eff, st, ex = run_function(v, f, hooks=NOINLINE, args=args, concrete=conc)
+            got = {}
+            for x in flat(eff):
+                if x["e"] in ("while", "loop", "asm", "unknown"):
+                    return None, "a loop of %s does not unroll for N = %d, a = %d" % (f.name, nv, av)
+                if x["e"] == "store" and x["lv"][0] == "idx" and x["lv"][1] == OUT:
+                    ix = sym.const_value(x["lv"][2])
+                    if ix is None or x["op"] != "=":
+                        return None, "store %s %s at line %s" % (sym.show(x["lv"]), x["op"], x["l"])
+                    got[ix] = x["val"]
+            for i_ in range(nv):
+                srci = (i_ - av) % nv
+                wraps = (srci - (i_ - av)) // nv
+                want = sym.mul(I(-1 if wraps % 2 else 1), sym.idx(IN, I(srci)))
+                if minus_one:
+                    want = sym.sub(want, sym.idx(IN, I(i_)))
+                if got.get(i_) != want:
+                    return False, "for N = %d, a = %d: coefficient %d of the result is %s, expected %s" % (
+                        nv, av, i_, sym.show(got[i_])[:60] if i_ in got else "never written", sym.show(want))
+                n_checked += 1
+            if set(got) - set(range(nv)):
+                return False, "for N = %d, a = %d: coefficient %d outside [0, N) is written" % (nv, av, sorted(set(got) - set(range(nv)))[0])
+    return True, "interpreted with N in %s and every a in [0, 2N): %d coefficients equal (-1)^wraps * in[(i - a) mod N]%s" % (
+        list(sizes), n_checked, " - in[i]" if minus_one else "")
+
+
 def check_monomial(chk, v, name, coefs, minus_one):
     f = v.fn(name)
     ps, _ = summ.pieces(v, f, hooks=NOINLINE)
@@ -30,14 +70,24 @@ def check_monomial(chk, v, name, coefs, minus_one):
     other = [p for p in ps if p["kind"] in ("asm", "while", "unknown")]
     key = "%s is the map (i - %s) mod N with sign (-1)^wraps%s" % (name, a, " minus the identity" if minus_one else "")
     if other or not stores:
-        chk.broken("%s: unrecognised shape (%s)" % (name, [p["kind"] for p in other]))
+        oku, detu = monomial_by_unrolling(v, f, coefs, minus_one)
+        if oku is None:
+            chk.broken("%s: unrecognised shape (%s); %s" % (name, [p["kind"] for p in other], detu))
+        chk.require(oku, "R1", key, where=f.where, ok=detu, bad=detu, variant=v.name)
+        chk.vcount(v.name, "R1.monomial_functions")
+        return
     N = P(src, "N")
     A = sym.sym(a)
     facts = [A, sym.sub(sym.sub(sym.mul(I(2), N), I(1)), A), sym.sub(N, I(1))]       # 0 <= a <= 2N-1, N >= 1 (documented contract)
     ok, detail, infos = pam.check_map_cases(stores, P(res, coefs), P(src, coefs), N, 1, sym.neg(A), facts,
                                             extra_terms=[(-1, "same")] if minus_one else [], want_op="=")
     if ok is None:
-        chk.broken("%s: %s" % (name, detail))
+        oku, detu = monomial_by_unrolling(v, f, coefs, minus_one)
+        if oku is None:
+            chk.broken("%s: %s; %s" % (name, detail, detu))
+        chk.require(oku, "R1", key, where=f.where, ok=detu, bad=detu, variant=v.name)
+        chk.vcount(v.name, "R1.monomial_functions")
+        return
     guards = {tuple(p["guards"]) for p in stores}
     if ok:
         if len(guards) == 2:
